@@ -173,8 +173,50 @@ Proof.
   rewrite (mapM_ext (src_col_names ref_col_rule) col_names) by apply src_col_names_ref. reflexivity.
 Qed.
 
-Lemma src_from_dataframe_ref t : src_from_dataframe ref_split_rule t = from_dataframe t.
-Proof. unfold src_from_dataframe, from_dataframe. now rewrite src_group_cols_ref. Qed.
+(** a loop of additions started on a container with [keys_agree]: the source-level program and the model agree all along *)
+Definition ok_keys (a : res container) : Prop := match a with Ok c => keys_agree c | Err _ => True end.
+
+Lemma fold_adds_ref {X} tt (args : X -> res (pyid * pyarg)) (l : list X) : same_types tt -> forall acc, ok_keys acc ->
+  fold_left (fun acc x => do c <- acc; do ia <- args x; src_outcome (src_add tt ref_add c (fst ia) (snd ia))) l acc
+  = fold_left (fun acc x => do c <- acc; do ia <- args x;
+                 match add c (fst ia) (snd ia) with Added c' => Ok c' | Rejected e => Err e | AcceptedOutsideModel => Err Unmodelled end) l acc.
+Proof.
+  intros Htt. induction l as [|x r IH]; intros acc Hk; [reflexivity|]. cbn [fold_left].
+  assert (E : (do c <- acc; do ia <- args x; src_outcome (src_add tt ref_add c (fst ia) (snd ia)))
+              = (do c <- acc; do ia <- args x;
+                 match add c (fst ia) (snd ia) with Added c' => Ok c' | Rejected e => Err e | AcceptedOutsideModel => Err Unmodelled end)).
+  { destruct acc as [c|e]; [|reflexivity]. cbn [bind]. destruct (args x) as [ia|e]; [|reflexivity]. cbn [bind].
+    rewrite (src_add_ref tt c _ _ Htt Hk). destruct (add c (fst ia) (snd ia)); reflexivity. }
+  rewrite E. apply IH.
+  destruct acc as [c|e]; [|exact I]. cbn [bind]. destruct (args x) as [ia|e]; [|exact I]. cbn [bind].
+  destruct (add c (fst ia) (snd ia)) eqn:Ha; try exact I. cbn [ok_keys]. eapply add_keys_agree; eauto.
+Qed.
+
+Lemma fold_left_ext {A B} (f g : A -> B -> A) l : (forall a b, f a b = g a b) -> forall a, fold_left f l a = fold_left g l a.
+Proof. intros H. induction l as [|x r IH]; intros a; [reflexivity|]. cbn. now rewrite H, IH. Qed.
+
+Lemma src_from_dataframe_ref tt t : same_types tt -> src_from_dataframe tt ref_add ref_split_rule t = from_dataframe t.
+Proof.
+  intros Htt. unfold src_from_dataframe, from_dataframe. rewrite src_group_cols_ref.
+  destruct (negb _); [reflexivity|]. destruct (group_cols (cols t) []) as [groups|e]; [|reflexivity]. cbn [bind].
+  pose (args := fun row : pyid * list Q =>
+          do d <- mapM (fun g : string * colspec => do v <- row_value (cols t) (snd row) (snd g); Ok (fst g, v)) groups;
+          Ok (fst row, ArgDict d)).
+  pose proof (fold_adds_ref tt args (rows t) Htt (Ok empty) eq_refl) as H.
+  etransitivity; [|etransitivity; [exact H|]]; apply fold_left_ext; intros acc row; unfold args;
+    destruct acc as [c|e]; try reflexivity; cbn [bind]; destruct (mapM _ groups); reflexivity.
+Qed.
+
+Lemma src_from_pytorch_ref tt ids d : same_types tt -> src_from_pytorch tt ref_add ids d = from_pytorch ids d.
+Proof.
+  intros Htt. unfold src_from_pytorch, from_pytorch. destruct (negb _); [reflexivity|].
+  pose (args := fun ii : nat * pyid =>
+          do pd <- mapM (fun kt : string * tensor => do v <- tensor_row (snd kt) (fst ii); Ok (fst kt, v)) d;
+          Ok (snd ii, ArgDict pd)).
+  pose proof (fold_adds_ref tt args (combine (seq 0 (List.length ids)) ids) Htt (Ok empty) eq_refl) as H.
+  etransitivity; [|etransitivity; [exact H|]]; apply fold_left_ext; intros acc ii; unfold args;
+    destruct acc as [c|e]; try reflexivity; cbn [bind]; destruct (mapM _ d); reflexivity.
+Qed.
 
 (* ------------------------------------------------------------------------------------------ iteration sources *)
 
@@ -224,3 +266,19 @@ Qed.
 (** every attribute is assigned by the reader — in particular the one the duplicate test of [add] looks at *)
 Lemma ref_fill_complete : forall f, filled ref_json_fill f = true.
 Proof. intros []; reflexivity. Qed.
+
+(* ------------------------------------------------------------------------------------------ save target, csv *)
+
+Lemma src_save_target_ref c path : src_save_target ref_save_rule c path = save_target c path.
+Proof.
+  unfold src_save_target, save_target. destruct (shapes c); [|reflexivity].
+  destruct (get_extension path) as [e|]; reflexivity.
+Qed.
+
+Lemma src_csv_roundtrip_ref tt c : same_types tt ->
+  src_csv_roundtrip tt ref_add SrcIndices ref_col_rule ref_split_rule c = csv_roundtrip c.
+Proof.
+  intros Htt. unfold src_csv_roundtrip, csv_roundtrip. destruct (shapes c); [|reflexivity].
+  rewrite src_to_dataframe_ref. destruct (to_dataframe c) as [t|e]; [|reflexivity]. cbn [bind].
+  destruct (csv_reread t) as [t'|e]; [|reflexivity]. cbn [bind]. apply src_from_dataframe_ref. exact Htt.
+Qed.
